@@ -242,4 +242,86 @@ def histToGraphRun (el : HistToGraphEl) (isHist : Bool) (h : Hist) (toGraph : Bo
     let (h1, g) ← histToGraph h (some el.getter) el.mode el.fieldNames el.scale
     pure (.graph h1 g)
 
+/-! ## one axis nested in a list: `histogram([[x0, x1, …]], …)`
+
+`Model/C12.lean` answers `unmodelled` for this format of a one-dimensional histogram (`mkHist`), and dispatches the CSV
+conversion on the shape of `edges` (`toCsvHist`).  The functions below cover every format: a nested single axis is
+one axis like any other (`Edges.axes`), which is what the code does after notes/C12_defect_4.patch
+(`histogram.__init__`: `nbins`/`ranges` per axis whenever the edges are nested; `iter_cells`, `hist1d_to_csv`: the
+edges are unified with `unify_1_md`).  On all other edges they coincide with the functions of `Model/C12.lean`
+(`mkHistU_eq`, `addU_eq`, `toCsvHistU_eq` in `Props/C12Ext.lean`). -/
+
+/-- `histogram.__init__(edges, bins, initial_value)` (histogram.py:47-165) for every format of the edges -/
+def mkHistU (edges : Edges) (bins : Option (NArr Q)) (initial : Q) : Except Err Hist := do
+  checkEdgesIncreasing edges
+  match edges.axes with
+  | [] => .error .lenaValueError   -- not reached: `check_edges_increasing` has rejected it
+  | e0 :: rest =>
+    match bins with
+    | none => pure { edges := edges, bins := full (nbinsOf (e0 :: rest)) initial, nOut := 0, scale := none }
+    | some b =>
+      let n ← lenBins b
+      if n ≠ e0.length - 1 then .error .lenaValueError
+      else pure { edges := edges, bins := b, nOut := 0, scale := none }
+
+/-- `self.add(other, weight, edges_abs_tol, edges_rel_tol)` (histogram.py:167-209) with the constructor `mk` for the
+new histogram: `add = addWith mkHist` -/
+def addWith (mk : Edges → Option (NArr Q) → Q → Except Err Hist) (self other : Hist) (weight : Q) (t : Tol) :
+    Except Err Hist := do
+  let differ ←
+    if self.nbins ≠ other.nbins then pure true
+    else do
+      let c ← iscloseEdges t self.edges other.edges
+      pure (!c)
+  if differ then .error .lenaValueError
+  else do
+    let obins ← if weight ≠ 1 then mdMap (fun val => val * weight) other.bins else pure other.bins
+    let newBins ← mdMap2 (· + ·) self.bins obins
+    let newHist ← mk self.edges (some newBins) 0
+    pure { newHist with nOut := self.nOut + other.nOut * weight }
+
+/-- `histogram.add` for every format of the edges -/
+def addU : Hist → Hist → Q → Tol → Except Err Hist := addWith mkHistU
+
+/-- `ToCSV.run` for one `(histogram, context)` value, dispatching on `data.dim` (the number of axes) -/
+def toCsvHistU (h : Hist) (toCsv : Bool) (ctxDup : Option Bool) (elemDup : Bool) : Except Err CsvOut :=
+  if !toCsv then .ok .unchanged
+  else
+    let dup := match ctxDup with
+      | some d => d
+      | none => elemDup
+    match h.edges.axes with
+    | [e] => do
+      let rows ← rows1d e h.bins dup
+      pure (.table rows)
+    | [ex, ey] => do
+      let rows ← rows2d ex ey h.bins dup
+      pure (.table rows)
+    | _ => .ok .unchanged
+
+def toCsvHistTextU (f : CsvFormat) (h : Hist) (toCsv : Bool) (ctxDup : Option Bool) (elemDup : Bool) :
+    Except Err CsvTextOut := do
+  match ← toCsvHistU h toCsv ctxDup elemDup with
+  | .unchanged => pure .unchanged
+  | .table rows => pure (.text (csvText f rows))
+
+/-! ## reading a printed number back -/
+
+/-- the characters before the first `'.'` and those after it -/
+def splitDot : List Char → List Char × List Char
+  | [] => ([], [])
+  | c :: cs => if c = '.' then ([], cs) else ((splitDot cs).map (c :: ·) id)
+
+/-- a leading minus sign, and the rest -/
+def stripSign : List Char → Bool × List Char
+  | '-' :: r => (true, r)
+  | r => (false, r)
+
+/-- a decimal number `[-]ddd.dddddd` (as `"{:f}"` prints it) read back: whether it has a minus sign, and its
+absolute value in millionths (`int(part before the dot) * 10**6 + int(six digits after the dot)`) -/
+def parseFixed (cs : List Char) : Bool × Nat :=
+  let (neg, body) := stripSign cs
+  let (ip, fp) := splitDot body
+  (neg, Nat.ofDigitChars 10 ip 0 * 1000000 + Nat.ofDigitChars 10 fp 0)
+
 end Lena.C12
